@@ -105,3 +105,130 @@ Section Skip.
     destruct (listen_now c s ev); destruct (N.ltb_spec 0 ((inst + 65536 - counter s) mod 65536)); lia.
   Qed.
 End Skip.
+
+(* ------------------------------------------------------------------ features *)
+From Coq Require Import Btauto.
+
+Definition wf_cfg (c : cfg) : Prop := is_set c = true -> confs c <> [].
+
+Lemma legal_wf c : legal c = true -> wf_cfg c.
+Proof.
+  unfold legal, wf_cfg. intros H S. rewrite S in H. intros E. rewrite E in H. discriminate.
+Qed.
+
+(* the three-way (all / none / run time) evaluation of a configuration set is the option list of
+   the selected configuration *)
+Lemma feature_enabled c s f :
+  (is_set c = true -> (cur s < length (confs c))%nat) -> feature c s f = enabled c (cur s) f.
+Proof.
+  unfold feature, enabled. destruct (is_set c); [|reflexivity]. intros L. specialize (L eq_refl).
+  pose proof (nth_In (confs c) [] L) as IN.
+  destruct (forallb (has f) (confs c)) eqn:A.
+  - rewrite forallb_forall in A. symmetry. apply A. exact IN.
+  - destruct (existsb (has f) (confs c)) eqn:B; cbn; [reflexivity|].
+    destruct (has f (nth (cur s) (confs c) [])) eqn:E; [|reflexivity].
+    assert (existsb (has f) (confs c) = true) by (apply existsb_exists; eauto). congruence.
+Qed.
+
+Lemma must_listen_eq c s ev :
+  (is_set c = true -> (cur s < length (confs c))%nat) -> must_listen c (cur s) ev = listen_now c s ev.
+Proof.
+  intros L. unfold must_listen, listen_now. cbn [existsb fst snd].
+  rewrite !(feature_enabled c s _ L). btauto.
+Qed.
+
+(* ------------------------------------------------------------------ simulation *)
+Record inv (c : cfg) (s : state) (m : mon) : Prop := mkinv {
+  i_c : mc m = counter s; i_ch : mch m = chan s; i_t : mt m = time s; i_cur : mcur m = cur s;
+  i_cr : counter s < two16; i_chr : chan s < num_channels; i_tr : time s < two32;
+  i_ll : ll s = budget m + 1;
+  i_set : is_set c = true -> (cur s < length (confs c))%nat;
+  i_trk : tracked m = true -> budget m + 1 <= dist m /\ att m < dist m /\ (att m = 0 \/ budget m < att m)
+}.
+
+Definition R (c : cfg) (s : state) (m : mon) : Prop :=
+  if dead s then mdead m = true else mdead m = false /\ inv c s m.
+
+Definition op_ok (o : op) : Prop :=
+  match o with Plan lat _ _ _ _ => lat mod two16 <> two16 - 1 | _ => True end.
+
+Lemma judge_ok l m' m : forallb fst l = true -> judge l m' m = (Ok, m').
+Proof.
+  unfold judge. intros H. replace (checks l) with (@None nat); [reflexivity|].
+  induction l as [|[[|] tag] t IH]; cbn in *; auto; discriminate.
+Qed.
+
+Lemma ll_shape_show c x : ll_shape c (if disarmable c then Some x else None) = true.
+Proof. unfold ll_shape. destruct (disarmable c); reflexivity. Qed.
+
+Lemma R_dead c s m : dead s = true -> mdead m = true -> R c s m.
+Proof. unfold R. intros -> H. exact H. Qed.
+
+Ltac dead_end := eexists; split; [reflexivity | apply R_dead; reflexivity].
+
+Section Sim.
+  Variables (c : cfg) (s : state) (m : mon).
+  Hypothesis W : wf_cfg c.
+  Hypothesis Ds : dead s = false.
+  Hypothesis Dm : mdead m = false.
+  Hypothesis I : inv c s m.
+
+  Let goal (o : op) : Prop :=
+    exists m', mstep c m o (snd (step c s o)) = (Ok, m') /\ R c (fst (step c s o)) m'.
+
+  Lemma sim_reset : goal Reset.
+  Proof.
+    destruct I. unfold goal, step, mstep. rewrite Ds, Dm. cbn [fst snd show counter chan time ll].
+    eexists. split.
+    - apply judge_ok. cbn [forallb fst]. rewrite ll_shape_show. destruct (disarmable c); reflexivity.
+    - unfold R. cbn [dead]. split; [reflexivity|]. constructor; cbn; auto; try (unfold two16, num_channels, two32; lia).
+  Qed.
+
+  Lemma sim_plan lat0 ev iv0 pend inst0 : lat0 mod two16 <> two16 - 1 -> goal (Plan lat0 ev iv0 pend inst0).
+  Proof.
+    intros L. destruct I. unfold goal, step, mstep. rewrite Ds, Dm.
+    set (lat := lat0 mod two16) in *. set (iv := iv0 mod two32). set (inst := inst0 mod two16).
+    assert (Llat : lat < two16 - 1) by (subst lat; unfold two16 in *; lia).
+    assert (Liv : iv < two32) by (subst iv; unfold two32; lia).
+    pose proof (plan_skip_range c s lat ev pend inst Llat) as K.
+    pose proof (plan_skip_listen c s lat ev pend inst) as KL.
+    pose proof (plan_skip_le_distance c s lat ev pend inst) as KD.
+    set (k := plan_skip c s lat ev pend inst) in *.
+    destruct (dt_mul iv k) as [t'|] eqn:M.
+    - replace (disarmable c && (k =? 0)) with false
+        by (destruct (disarmable c); cbn; [symmetry; apply N.eqb_neq; lia | reflexivity]).
+      cbn [fst snd show counter chan time ll].
+      pose proof (dt_mul_bound _ _ _ M Liv) as Tb.
+      pose proof (dt_mul_exact _ _ _ M) as Te.
+      assert (S : ((counter s + k) mod two16 + two16 - mc m) mod two16 = k)
+        by (rewrite i_c0; unfold two16 in *; lia).
+      rewrite S.
+      eexists. split.
+      + apply judge_ok. cbn [forallb fst]. rewrite ll_shape_show.
+        rewrite i_cur0, (must_listen_eq c s ev i_set0), i_ch0, i_c0.
+        assert (A1 : in_range ((counter s + k) mod two16) ((chan s + k) mod num_channels) t' = true)
+          by (unfold in_range, two16, num_channels, two32 in *; lia).
+        assert (A2 : negb (listen_now c s ev) || (k =? 1) = true)
+          by (destruct (listen_now c s ev); cbn; [rewrite KL by reflexivity; reflexivity | reflexivity]).
+        assert (A3 : negb pend || ((inst + two16 - counter s) mod two16 =? 0) || (k <=? (inst + two16 - counter s) mod two16) = true).
+        { destruct pend; cbn; [|reflexivity]. specialize (KD eq_refl).
+          destruct (N.eqb_spec ((inst + two16 - counter s) mod two16) 0) as [E|E]; cbn; [reflexivity|].
+          apply N.leb_le. apply KD. lia. }
+        assert (A4 : negb (k * iv <? two32) || (t' =? k * iv) = true).
+        { destruct (N.ltb_spec (k * iv) two32) as [E|E]; cbn; [|reflexivity].
+          apply N.eqb_eq. rewrite Te; lia. }
+        assert (A5 : match (if disarmable c then Some k else None) with Some x => x =? k | None => true end = true)
+          by (destruct (disarmable c); [apply N.eqb_refl | reflexivity]).
+        rewrite A1, A2, A3, A4, A5. rewrite N.eqb_refl. cbn.
+        unfold two16 in *. lia.
+      + unfold R. cbn [dead]. split; [reflexivity|].
+        constructor; cbn; auto; try (unfold two16, num_channels, two32 in *; lia).
+    - (* the multiplication asserts: only possible when the precondition is violated *)
+      cbn [fst snd die].
+      assert (two32 <= iv * k).
+      { destruct (N.lt_ge_cases (iv * k) two32) as [E|E]; [|exact E]. exfalso. exact (dt_mul_total _ _ E M). }
+      replace (((lat + 1) * iv <? two32) && (lat <? two16 - 1)) with false
+        by (symmetry; apply andb_false_iff; left; apply N.ltb_ge; unfold two32 in *; nia).
+      dead_end.
+  Qed.
+End Sim.
